@@ -709,7 +709,7 @@ func init() {
 	fw.Register(&fw.Prop{
 		ID:    "C16",
 		Level: "exploration",
-		Rule: "call chains of depth 1-8 (links: direct call, lambda, comprehension, sorted/max key callback, call as method argument; all link sequences up to a length) x 23 failing operation kinds x layouts: " +
+		Rule: "call chains of depth 1-8 (links: direct call, lambda, comprehension, sorted/max key callback, call as method argument; all link sequences up to a length) x 26 failing operation kinds (incl. free variables read before assignment in a nested def / lambda / key callback) x layouts; the statements that precede the failing operation in destructuring/comprehension/conditional shapes; every ordered pair and triple of failing operations of ONE compiled function on one thread (3 variants), recursive activations of one function (3 shapes x depth 0-6), a module loaded on the same thread failing (5 importer shapes); layouts: " +
 			"all combinations of column boundaries {0,1,29..34,61..66} and line-break boundaries {0,1,14..17,30..33} for the operator token and the right operand (two-row windows), pc fillers {0..17 constants, 0..8 statements}, the same on calling frames, and extremes (column 10^4, 10^5 blank lines, 3000 instructions); " +
 			"oracle: every CallStack frame names the right function at exactly the (line, col) where the renderer wrote the call's '(' or the failing operator token, built-in frames in place, Backtrace() lists the same frames in order; every case fails and is compared frame by frame; non-trivial = cases (all distinct by construction) whose failing or calling frame is rendered in a non-default layout, i.e. whose position table has to encode at least one non-minimal line/column/pc delta",
 		Run: run, Worker: worker, Replay: replay,
